@@ -262,4 +262,54 @@ def replExpected (within : Nat → Nat → Bool) (e : Entry) : CState × List (N
        ((e.attrs.lookup k).filter fun vs => !vs.elems.isEmpty).map fun vs => (k, vs)
      else none)
 
+/-! ## Fields a decoder must rebuild (derived state the encoder does not write)
+
+`Gen.decodeCtors` lists, for every decoder reached from `from_db_valueset_v2`, how it builds its
+`ValueSetX`: through a canonical in-memory constructor, or by struct literals — then where every
+field of the struct comes from. An accumulator (`let mut`, updated while the stored elements are
+converted — `ValueSetOauth2Session.rs_filter`) is modelled as what it is in the code: a bit mask,
+the OR of what each converted element contributes. -/
+
+/-- An arm that yields an element also updates the accumulator. -/
+def DecodeArm.ok (a : DecodeArm) : Bool := !a.yields || a.updates
+
+/-- The field is rebuilt from the stored data on every path: directly, or by an accumulator that
+is updated for every element (in the loop body itself, or in every yielding arm of the `match`
+over the stored record versions). A constant is not. -/
+def DecodeField.ok (f : DecodeField) : Bool :=
+  f.kind == 0 || (f.kind == 1 && (decide (f.uniform > 0) || (!f.arms.isEmpty && f.arms.all DecodeArm.ok)))
+
+/-- One struct literal assigns every field of the struct, each from a maintained source. -/
+def literalOk (nFields : Nat) (l : List DecodeField) : Bool :=
+  l.all DecodeField.ok && (List.range nFields).all fun i => l.any fun f => f.field == i
+
+/-- The decoder goes through the struct's canonical constructor, or every one of its struct
+literals rebuilds every field. -/
+def DecodeCtor.ok (c : DecodeCtor) : Bool :=
+  c.via.isSome || (!c.literals.isEmpty && c.literals.all (literalOk c.nFields))
+
+/-- The accumulator loop of a decoder. A stored element is `(arm, bits)`: the index of the arm
+of the `match` that converts it, and the bits it contributes to the mask (`rs_uuid.as_u128()`).
+The loop starts from 0 (`u128::MIN`) and ORs the bits in where the code does. -/
+def DecodeField.step (f : DecodeField) (acc : Nat) (e : Nat × Nat) : Nat :=
+  match f.arms[e.1]? with
+  | some a => if decide (f.uniform > 0) || a.updates then acc ||| e.2 else acc
+  | none => if decide (f.uniform > 0) then acc ||| e.2 else acc
+
+def DecodeField.accumulate (f : DecodeField) (els : List (Nat × Nat)) : Nat :=
+  els.foldl f.step 0
+
+/-- The decoder keeps the element (its arm yields). -/
+def DecodeField.keeps (f : DecodeField) (e : Nat × Nat) : Bool :=
+  match f.arms[e.1]? with
+  | some a => a.yields
+  | none => false
+
+/-- The elements the decoder keeps. -/
+def DecodeField.kept (f : DecodeField) (els : List (Nat × Nat)) : List (Nat × Nat) :=
+  els.filter f.keeps
+
+/-- `rs_filter & u == u`: the mask does not rule the member out. -/
+def maskAdmits (mask bits : Nat) : Bool := bits &&& mask == bits
+
 end Kanidm.StoreCodec
